@@ -5,6 +5,7 @@ from .. import mir
 from ..term import Terms, show, alts, is_call, walk, match, V, C, TRY
 from ..guards import guards, strip_not
 from ..rules_e2 import run_e2
+from ..rules_contract import run_contracts
 
 SELF, SPAN = ("param", 1, "self"), ("param", 2, "span")
 
@@ -14,6 +15,7 @@ def run(ctx, rep):
     rep.notes.append("Does not decide equality with wide-integer reference arithmetic in general.")
     pipeline(rep, prog)
     saturating(rep, prog)
+    run_contracts(ctx, rep)
     if os.path.exists(os.path.join(os.path.dirname(__file__), "..", "..", "reviewed", "ranged.tsv")):
         run_e2(ctx, rep, select=lambda f: f.file in ("src/civil/date.rs", "src/civil/datetime.rs", "src/civil/time.rs", "src/duration.rs"), floor=100)
 
